@@ -97,6 +97,20 @@ impl<R: DynamicChannelRegion> DynamicChannelPlan<R> {
     pub fn get_max_payload_length(datarate: DR, repeater_compatible: bool, dwell_time: bool) -> u8 {
         R::get_max_payload_length(datarate, repeater_compatible, dwell_time)
     }
+
+    /// The network may remove channels (CFList of a later JoinAccept, NewChannelReq with
+    /// frequency 0) which the channel mask relied upon. When that leaves no enabled channel,
+    /// channel selection would never find a candidate: fall back to the default (join)
+    /// channels, which always exist.
+    fn enable_default_channels_if_none_usable(&mut self) {
+        let usable = (0..NUM_CHANNELS_DYNAMIC as usize)
+            .any(|i| self.channels[i].is_some() && self.channel_mask.is_enabled(i).unwrap());
+        if !usable {
+            for i in 0..R::NUM_JOIN_CHANNELS as usize {
+                self.channel_mask.set_channel(i, true);
+            }
+        }
+    }
 }
 
 pub(crate) trait DynamicChannelRegion: ChannelRegion {
@@ -122,6 +136,7 @@ impl<R: DynamicChannelRegion> RegionHandler for DynamicChannelPlan<R> {
                         self.channels[index] = Some(Channel::new(value, DR::_0, DR::_5));
                     }
                 }
+                self.enable_default_channels_if_none_usable();
             }
             // Type 1
             Some(CfList::FixedChannel(_cf_list)) => {
@@ -292,6 +307,7 @@ impl<R: DynamicChannelRegion> RegionHandler for DynamicChannelPlan<R> {
         if freq == 0 {
             self.channels[index as usize] = None;
             self.channel_mask.set_channel(index as usize, false);
+            self.enable_default_channels_if_none_usable();
             return (true, true);
         }
         let freq_valid = self.frequency_valid(freq);
